@@ -18,6 +18,8 @@ func init() {
 			"every exit of a walk function that signals an error (return r.err()) has recorded an error on all paths in the validation pass; every leaf walker tests null-ness before it tests the JSON kind and, on the null edge, either renders null under Nullable or records the non-null violation; the JSON tree is nulled only in the validation pass (two idempotent array sites frozen); " +
 			"the renderer's bookkeeping stacks (response path, runtime type names, enclosing type names) are balanced on every exit of every walk function. It does not decide JSON validity, key-set equality or projection equality (value level).",
 		Mutants: []Mutant{
+			{Name: "nested list nulls itself through its empty path (the repaired defect F24)", File: "v2/pkg/engine/resolve/resolvable.go", Rule: "C02-R9", Key: "walkArray/set-null-needs-a-path",
+				Old: "\t\t\tif arr.Nullable && len(arr.Path) > 0 {", New: "\t\t\tif arr.Nullable {"},
 			{Name: "errors member of a subscription event stored whatever its JSON kind (the repaired defect F23)", File: "v2/pkg/engine/resolve/resolvable.go", Rule: "C02-R8", Key: "InitSubscription/errors-assigned-an-array",
 				Old: "\t\t\tif selectedInitialErrors != nil && selectedInitialErrors.Type() == astjson.TypeArray {", New: "\t\t\tif selectedInitialErrors != nil {"},
 			{Name: "value completion extension does not set the comma flag (seeded change C02-13)", File: "v2/pkg/engine/resolve/resolvable.go", Rule: "C02-R7", Key: "Resolvable.printExtensions/section",
@@ -53,6 +55,7 @@ var c02Recorders = map[string]bool{
 
 func runC02(r *fw.Run) {
 	defer c02CopyPreserves(r)
+	defer c02SetNullNeedsAPath(r)
 	defer c02ErrorsIsAnArray(r)
 	defer c02CommaFlags(r)
 	p := r.Prog
@@ -743,4 +746,64 @@ func c02ErrorsIsAnArray(r *fw.Run) {
 		in.Run(nil)
 	}
 	r.Expect("C02-R8", "assignments of the errors fields", n, 14)
+}
+
+// c02SetNullNeedsAPath (R9): an Object or Array that is the item of a list has an empty Path. astjson.SetNull(parent,
+// path...) indexes path[len(path)-1], so calling it with the Path of such a node panics. Every SetNull whose path is the
+// Path of an Object/Array node is dominated by the test len(node.Path) > 0 (the walkers of objects do this; a list item is
+// nulled by the enclosing list instead).
+func c02SetNullNeedsAPath(r *fw.Run) {
+	p := r.Prog
+	r.Rule("C02-R9", "astjson.SetNull(parent, node.Path...) for an Object / Array node is dominated by len(node.Path) > 0 (a list item has an empty path; SetNull indexes the last path element)")
+	info := p.Pkg("resolve").TypesInfo
+	n := 0
+	for _, fi := range p.Funcs("resolve") {
+		if fi.Decl.Recv == nil || !strings.HasPrefix(fi.Name(), "Resolvable.") {
+			continue
+		}
+		has := false
+		fw.WalkAll(fi.Decl.Body, func(nd ast.Node) bool {
+			if c, ok := nd.(*ast.CallExpr); ok {
+				if fn := fw.Callee(info, c); fn != nil && fn.Name() == "SetNull" && c.Ellipsis.IsValid() {
+					has = true
+				}
+			}
+			return true
+		})
+		if !has {
+			continue
+		}
+		in := fw.NewInterp(fi)
+		in.H = fw.Hooks{
+			Cond: func(e ast.Expr, branch bool, st *fw.State) {
+				a := fw.Atom(info, e, branch)
+				if a.Kind == "NonEmpty" {
+					st.Set("nonempty:" + fw.ExprKey(info, a.X))
+				}
+			},
+			Node: func(nd ast.Node, st *fw.State) {
+				c, ok := nd.(*ast.CallExpr)
+				if !ok || !in.Final() {
+					return
+				}
+				fn := fw.Callee(info, c)
+				if fn == nil || fn.Name() != "SetNull" || !c.Ellipsis.IsValid() || len(c.Args) < 3 {
+					return
+				}
+				path := c.Args[len(c.Args)-1]
+				v, sel := fw.Field(info, path)
+				if v == nil || v.Name() != "Path" {
+					return
+				}
+				if _, owner := fw.FieldOwner(info, sel); owner != "Object" && owner != "Array" {
+					return
+				}
+				n++
+				r.Check(st.Must("nonempty:"+fw.ExprKey(info, path)), "C02-R9", fi.Name()+"/set-null-needs-a-path#"+itoa(n), p.Pos(c.Pos()), "SetNull("+types.ExprString(path)+"...) in "+fi.Name()+" is dominated by len("+types.ExprString(path)+") > 0",
+					"the node can be the item of a list, where its Path is empty: SetNull then indexes path[-1] and the request panics — e.g. [[Int!]] answered with [[1,2],[3,null]]: the inner list tries to null itself through an empty path instead of letting the outer list null the item")
+			},
+		}
+		in.Run(nil)
+	}
+	r.Expect("C02-R9", "SetNull calls with the path of an Object/Array node", n, 3)
 }
